@@ -119,6 +119,27 @@ pub fn gen_weights(t: &mut Tape, n: usize) -> Vec<f64> {
     }
 }
 
+/// What one voice's own trees select, as plain numbers. For generated families it is taken from the
+/// harness's independent reader of the voice FILE (glob matching on the label text), so that it does
+/// not depend on what the loader made of the trees; for the bundled family from the parsed voice
+/// (whose agreement with the file is C04's subject).
+#[derive(Debug, Clone, PartialEq)]
+struct Sel {
+    params: Vec<(f64, f64)>,
+    msd: Option<f64>,
+}
+
+fn sel_parsed(p: &jbonsai::model::voice::model::ModelParameter) -> Sel {
+    Sel { params: p.parameters.iter().map(|m| (m.0, m.1)).collect(), msd: p.msd }
+}
+
+fn sel_file(m: &crate::hts_reader::FileModel, state: usize, text: &str, is_msd: bool) -> Result<Sel, Failure> {
+    let (ti, pi, _) = m.select(state, text).map_err(|e| Failure::new("oracle-walk", e))?;
+    let want = m.pdf_at(ti, pi).map_err(|e| Failure::new("oracle-walk", e))?;
+    let len = (want.len() - is_msd as usize) / 2;
+    Ok(Sel { params: (0..len).map(|k| (want[k] as f64, want[k + len] as f64)).collect(), msd: if is_msd { Some(want[2 * len] as f64) } else { None } })
+}
+
 pub struct Interpolation;
 
 impl Prop for Interpolation {
@@ -208,6 +229,10 @@ impl Prop for Interpolation {
             }
         };
         let n = voices.len();
+        let files: Option<Vec<crate::hts_reader::FileVoice>> = match &c.family {
+            Family::Generated(specs) => Some(specs.iter().map(|s| crate::hts_reader::read_voice(&s.to_bytes()).map_err(|e| Failure::new("harness-reader", e))).collect::<Result<Vec<_>, _>>()?),
+            _ => None,
+        };
         let mut engine = engine_from_voices(voices.clone())?;
         {
             // defaults: equal weights
@@ -291,10 +316,13 @@ impl Prop for Interpolation {
         let dur = dur.unwrap_or_default();
         ensure!(dur.len() == labels.len() * nstate, "interp-shape", "duration length {}", dur.len());
         for (li, l) in labels.iter().enumerate() {
-            let per: Vec<_> = voices.iter().map(|v| v.duration_model.get_parameter(2, l)).collect();
+            let per: Vec<Sel> = match &files {
+                Some(fs) => fs.iter().map(|f| sel_file(&f.duration, 2, &c.labels[li], false)).collect::<Result<Vec<_>, _>>()?,
+                None => voices.iter().map(|v| sel_parsed(&v.duration_model.get_parameter(2, l))).collect(),
+            };
             for s in 0..nstate {
-                let m: Vec<(f64, f64)> = per.iter().zip(&c.w_duration).map(|(p, w)| (*w, p.parameters[s].0)).collect();
-                let v: Vec<(f64, f64)> = per.iter().zip(&c.w_duration).map(|(p, w)| (*w, p.parameters[s].1)).collect();
+                let m: Vec<(f64, f64)> = per.iter().zip(&c.w_duration).map(|(p, w)| (*w, p.params[s].0)).collect();
+                let v: Vec<(f64, f64)> = per.iter().zip(&c.w_duration).map(|(p, w)| (*w, p.params[s].1)).collect();
                 let got = dur[li * nstate + s];
                 ensure!(close(got.0, &m) && close(got.1, &v), "interp-duration", "label {} state {}: duration Gaussian ({:e},{:e}) is not the weighted average with weights {:?} of {:?}", li, s, got.0, got.1, c.w_duration, m);
             }
@@ -306,15 +334,18 @@ impl Prop for Interpolation {
             let w = &c.w_parameter[i];
             for (li, l) in labels.iter().enumerate() {
                 for s in 0..nstate {
-                    let per: Vec<_> = voices.iter().map(|v| v.stream_models[i].stream_model.get_parameter(s + 2, l)).collect();
+                    let per: Vec<Sel> = match &files {
+                        Some(fs) => fs.iter().map(|f| sel_file(&f.streams[i].model, s + 2, &c.labels[li], f.streams[i].is_msd)).collect::<Result<Vec<_>, _>>()?,
+                        None => voices.iter().map(|v| sel_parsed(&v.stream_models[i].stream_model.get_parameter(s + 2, l))).collect(),
+                    };
                     if n >= 2 && per.windows(2).any(|p| p[0] != p[1]) {
                         differing = true;
                     }
                     let (gp, gmsd) = &ms.stream[li * nstate + s];
-                    ensure!(gp.len() == per[0].parameters.len(), "interp-shape", "stream {} vector size", i);
+                    ensure!(gp.len() == per[0].params.len(), "interp-shape", "stream {} vector size", i);
                     for k in 0..gp.len() {
-                        let m: Vec<(f64, f64)> = per.iter().zip(w).map(|(p, w)| (*w, p.parameters[k].0)).collect();
-                        let v: Vec<(f64, f64)> = per.iter().zip(w).map(|(p, w)| (*w, p.parameters[k].1)).collect();
+                        let m: Vec<(f64, f64)> = per.iter().zip(w).map(|(p, w)| (*w, p.params[k].0)).collect();
+                        let v: Vec<(f64, f64)> = per.iter().zip(w).map(|(p, w)| (*w, p.params[k].1)).collect();
                         ensure!(
                             close(gp[k].0, &m) && close(gp[k].1, &v),
                             "interp-stream",
@@ -335,11 +366,14 @@ impl Prop for Interpolation {
             match (&ms.gv, has_gv) {
                 (Some((params, _switch)), true) => {
                     let w = &c.w_gv[i];
-                    let per: Vec<_> = voices.iter().map(|v| v.stream_models[i].gv_model.as_ref().map(|g| g.get_parameter(2, &labels[0]))).collect();
+                    let per: Vec<Option<Sel>> = match &files {
+                        Some(fs) => fs.iter().map(|f| f.streams[i].gv.as_ref().map(|g| sel_file(g, 2, &c.labels[0], false)).transpose()).collect::<Result<Vec<_>, _>>()?,
+                        None => voices.iter().map(|v| v.stream_models[i].gv_model.as_ref().map(|g| sel_parsed(&g.get_parameter(2, &labels[0])))).collect(),
+                    };
                     ensure!(per.iter().all(|p| p.is_some()), "interp-gv", "stream {} uses GV but a voice has no GV model", i);
                     for k in 0..params.len() {
-                        let m: Vec<(f64, f64)> = per.iter().zip(w).map(|(p, w)| (*w, p.unwrap().parameters[k].0)).collect();
-                        let v: Vec<(f64, f64)> = per.iter().zip(w).map(|(p, w)| (*w, p.unwrap().parameters[k].1)).collect();
+                        let m: Vec<(f64, f64)> = per.iter().zip(w).map(|(p, w)| (*w, p.as_ref().unwrap().params[k].0)).collect();
+                        let v: Vec<(f64, f64)> = per.iter().zip(w).map(|(p, w)| (*w, p.as_ref().unwrap().params[k].1)).collect();
                         ensure!(close(params[k].0, &m) && close(params[k].1, &v), "interp-gv", "stream {} GV dim {}: ({:e},{:e}) is not the average with the stream's GV weights {:?} of {:?}", i, k, params[k].0, params[k].1, w, m);
                     }
                 }
